@@ -74,13 +74,20 @@ def h_worker(ctx, period, nlinks, K):
         links = [T.udp_link.UDPLink('127.0.0.1', 5800 + i, '0.0.0.0', 5700 + i) for i in range(nlinks)]
         start = ctx.int('start', 0, HYPER - 1)
         gen = cg.CLCKGen(links, clck_start=start, ind_period=period)
+        class Runaway(BaseException): pass
         def handler(fn):
+            if sum(1 for e in vc.ev if e[0] == 'handler') >= K + 1:
+                raise Runaway()                     # the stop request (K+1-th wait) was never looked at
             vc.ev.append(('handler', fn, [len(l.sock.sent) for l in links]))
             vc.adv('handler')                       # handler duration: any, below or above one period
         gen.clck_handler = handler
         gen.clck_src = gen.clck_start           # what start() does before spawning the thread
+        runaway = False
         with ctx.no_raise('worker:no-exception'):
-            gen._worker()
+            try: gen._worker()
+            except Runaway: runaway = True
+        ctx.check('stop-request-is-polled-before-every-tick', not runaway)
+        if runaway: return
         # ---- frame numbers and indications
         hs = [e for e in vc.ev if e[0] == 'handler']
         ctx.check('ticks', len(hs) == K, got=len(hs))
